@@ -31,6 +31,7 @@ META = {
     "assumptions": ["graph object filled as read_graph fills it (tags as decimal renderings); read_graph itself is C07",
                     "time.perf_counter / logger stubbed"],
 }
+META["explanation"] += '  runtext/*: the same multi-chromosome run through the real read_graph from GFA text, with the line order (link lines first, each link before the segment line of its second end, alternating) and a rotation of the S lines chosen by the solver; the chromosomes include one that is a single segment and one that is a single bubble.'
 
 
 def templates(tier):
@@ -61,6 +62,10 @@ def harnesses(tier):
             hs.append({"id": "chain/%s/t%d%d/v%s/h%d" % ("-".join(ks) or "none", tips[0], tips[1], "".join(map(str, variants)), seed),
                        "params": {"kind": "chain", "kinds": ks, "tips": list(tips), "variants": list(variants), "naming": i % 3, "hashseed": seed},
                        "timeout": 300 + 200 * len(ks), "twin": i == 9})
+    # purely numeric segment ids ("0", "1", ...)
+    for ks, tips in ((["snp"], (True, True)), (["snp", "del"], (True, True)), (["ins", "two"], (True, False)), (["tri", "nest", "inv"], (False, True)), (["snp", "snp"], (False, False))):
+        hs.append({"id": "chain-numeric-ids/%s/t%d%d" % ("-".join(ks), tips[0], tips[1]),
+                   "params": {"kind": "chain", "kinds": ks, "tips": list(tips), "variants": [0, 1], "naming": 4, "hashseed": len(ks) % 3}, "timeout": 600})
     # chains with fewer than two articulation points
     for ks, tips in ((["snp"], (False, False)), (["ins"], (False, False)), (["snp", "del"], (False, False)), (["tri"], (True, False)),
                      (["inv"], (False, True)), (["snp", "ins"], (False, False))):
@@ -68,10 +73,43 @@ def harnesses(tier):
             hs.append({"id": "fewartic/%s/t%d%d/h%d" % ("-".join(ks), tips[0], tips[1], seed),
                        "params": {"kind": "chain", "kinds": ks, "tips": list(tips), "variants": [0, 1, 2, 3], "naming": 0, "hashseed": seed},
                        "timeout": 400})
-    for order in (["chr1", "chr2"], ["chr2", "chr1"], ["chr2", "chr3", "chr1"], ["chr4", "chr1"], ["chr2", "chr4", "chr3"]):
+    for order in (["chr1", "chr2"], ["chr2", "chr1"], ["chr2", "chr3", "chr1"], ["chr4", "chr1"], ["chr2", "chr4", "chr3"], ["chr5", "chr2"], ["chr1", "chr5", "chr4"]):
         for seed in (0, 1):
             hs.append({"id": "run/%s/h%d" % (",".join(order), seed), "params": {"kind": "run", "order": order, "hashseed": seed}, "timeout": 900})
+    # the same through the real read_graph, from GFA text in several line orders (link lines before the segment lines they name)
+    for k, order in enumerate((["chr1", "chr2"], ["chr2", "chr3", "chr1"], ["chr2", "chr4", "chr3"])):
+        hs.append({"id": "runtext/%s" % ",".join(order), "params": {"kind": "run", "order": order, "hashseed": k % 2, "text": 1}, "timeout": 900})
     return hs
+
+
+def text_lines(spec, so, variant, rot=0):
+    """GFA text in a line order where link lines precede segment lines: 1 = all L lines first, 2 = every link right before the
+    segment line of its second end, 3 = S and L lines alternating from both lists"""
+    lines = F.gfa_text(spec, so, with_seq=False)
+    head = [l for l in lines if l[0] not in "SL"]
+    sl = [l for l in lines if l[0] == "S"]
+    sl = sl[3 * rot:] + sl[:3 * rot]
+    ll = [l for l in lines if l[0] == "L"]
+    if variant == 1:
+        return head + ll + sl
+    if variant == 2:
+        out = list(head)
+        used = set()
+        for s_ in sl:
+            nid = s_.split("\t")[1]
+            for i, l in enumerate(ll):
+                if i not in used and l.split("\t")[3] == nid:
+                    used.add(i)
+                    out.append(l)
+            out.append(s_)
+        return out + [l for i, l in enumerate(ll) if i not in used]
+    out = list(head)
+    for i in range(max(len(sl), len(ll))):
+        if i < len(ll):
+            out.append(ll[i])
+        if i < len(sl):
+            out.append(sl[i])
+    return out
 
 
 def make_spec(kinds, tips, naming, chrom="chr1", spec=None):
@@ -121,7 +159,8 @@ def build(params):
     for c in ("chr1", "chr2", "chr3"):
         F.build_chain(spec, c, kinds[c], tip_start=(c != "chr2"), tip_end=True, naming=0)
     F.build_chain(spec, "chr4", [], tip_start=False, tip_end=False, naming=0)  # a single segment
-    ALLC = ("chr1", "chr2", "chr3", "chr4")
+    F.build_chain(spec, "chr5", ["snp"], tip_start=False, tip_end=False, naming=0)  # the whole chromosome is one bubble
+    ALLC = ("chr1", "chr2", "chr3", "chr4", "chr5")
     nrefs = {c: F.n_refs(spec, c) for c in ALLC}
     args = []
     pre = []
@@ -129,18 +168,65 @@ def build(params):
         for i in range(nrefs[c]):
             args.append(("l%s_%d" % (c[-1], i), "int"))
             pre.append("l%s_%d >= 1" % (c[-1], i))
+    if params.get("text"):
+        # segment lengths are concrete here (they are symbolic in the run/ harnesses); the solver chooses the line order and a rotation
+        # of the S lines
+        pre = ["%s == %d" % (n, 1 + i % 4) for i, (n, _) in enumerate(args)]
+        args += [("lo", "int"), ("rot", "int")]
+        pre.append("1 <= lo <= 3 and 0 <= rot <= 6")
+    nlen = sum(nrefs.values())
 
     def case(*a):
         O = F.M["O"]
         e = stubs.env()
+        if params.get("text"):
+            lo_sel = 1 if a[nlen] == 1 else (2 if a[nlen] == 2 else 3)
+            rot_sel = 0
+            for r_ in range(7):
+                if a[nlen + 1] == r_:
+                    rot_sel = r_
+            a = [1 + i % 4 for i in range(nlen)]
         so = {}
         pos = 0
         for c in ALLC:
             so.update(F.so_layout(spec, c, a[pos:pos + nrefs[c]], 0))
             pos += nrefs[c]
-        g = F.direct_graph(spec, so)
-        e.graphs["in.gfa"] = lambda low: g
+        text = params.get("text")
+        if text:
+            e.files["in.gfa"] = stubs.MFile("text", text_lines(spec, so, lo_sel, rot_sel), None)
+        else:
+            g = F.direct_graph(spec, so)
+            e.graphs["in.gfa"] = lambda low: g
         O.run_order_gfa("in.gfa", "out", False, chromosome_order=",".join(order), with_sequence=False)
+        if text:
+            # the graph object is internal to the command: read the tags from the file it wrote
+            class _N:
+                def __init__(self):
+                    self.tags = {}
+
+            class _G:
+                nodes = {}
+
+            g = _G()
+            g.nodes = {}
+            fc = e.files.get("out/in-complete.gfa")
+            for l in (fc.lines if fc is not None else []):
+                if l.startswith("S"):
+                    fs = l.rstrip("\n").split("\t")
+                    nd = _N()
+                    for t in fs[3:]:
+                        k = t.split(":")
+                        if k[0] in ("BO", "NO"):
+                            nd.tags[k[0]] = ("i", k[2])
+                    g.nodes[fs[1]] = nd
+            for c in order:
+                for n in spec.chroms[c]:
+                    if n not in g.nodes or "BO" not in g.nodes[n].tags or "NO" not in g.nodes[n].tags:
+                        return "segment %s of %s is missing from the output or has no BO/NO" % (n, c)
+            for c in ALLC:
+                if c not in order:
+                    for n in spec.chroms[c]:
+                        g.nodes.setdefault(n, _N())
         lo = 0
         prev_max = None
         for c in order:
@@ -253,14 +339,15 @@ def replay(params, model, wd):
     for c in ("chr1", "chr2", "chr3"):
         F.build_chain(spec, c, kinds[c], tip_start=(c != "chr2"), tip_end=True, naming=0)
     F.build_chain(spec, "chr4", [], tip_start=False, tip_end=False, naming=0)
+    F.build_chain(spec, "chr5", ["snp"], tip_start=False, tip_end=False, naming=0)
     so = {}
     pos = 0
-    for c in ("chr1", "chr2", "chr3", "chr4"):
+    for c in ("chr1", "chr2", "chr3", "chr4", "chr5"):
         n = F.n_refs(spec, c)
         so.update(F.so_layout(spec, c, a[pos:pos + n], 0))
         pos += n
     p = os.path.join(wd, "in.gfa")
-    open(p, "w").write("".join(F.gfa_text(spec, so, with_seq=False)))
+    open(p, "w").write("".join(text_lines(spec, so, a[pos], a[pos + 1]) if params.get("text") else F.gfa_text(spec, so, with_seq=False)))
     od = os.path.join(wd, "out")
     try:
         O.run_order_gfa(p, od, False, chromosome_order=",".join(order), with_sequence=False)
